@@ -295,35 +295,39 @@ func (d *PathDecoder) decodeReferenceTargetsForAttribute(attr *hcl.Attribute, at
 	ctx := context.Background()
 
 	expr := d.newExpression(attr.Expr, attrSchema.Constraint)
-	if eType, ok := expr.(ReferenceTargetsExpression); ok {
-		var targetCtx *TargetContext
-		if attrSchema.Address != nil {
-			attrAddr, ok := resolveAttributeAddress(attr, attrSchema.Address.Steps)
-			if ok && (attrSchema.Address.AsExprType || attrSchema.Address.AsReference) {
-				targetCtx = &TargetContext{
-					FriendlyName:      attrSchema.Address.FriendlyName,
-					ScopeId:           attrSchema.Address.ScopeId,
-					AsExprType:        attrSchema.Address.AsExprType,
-					AsReference:       attrSchema.Address.AsReference,
-					ParentAddress:     attrAddr,
-					ParentRangePtr:    attr.Range.Ptr(),
-					ParentDefRangePtr: attr.NameRange.Ptr(),
-				}
-			}
+	eType, isTargetsExpr := expr.(ReferenceTargetsExpression)
 
-			if attrSchema.Address.AsReference {
-				ref := reference.Target{
-					Addr:          attrAddr,
-					ScopeId:       attrSchema.Address.ScopeId,
-					DefRangePtr:   attr.NameRange.Ptr(),
-					RangePtr:      attr.Range.Ptr(),
-					Name:          attrSchema.Address.FriendlyName,
-					NestedTargets: reference.Targets{},
-				}
-				refs = append(refs, ref)
+	var targetCtx *TargetContext
+	if attrSchema.Address != nil {
+		attrAddr, ok := resolveAttributeAddress(attr, attrSchema.Address.Steps)
+		if ok && (attrSchema.Address.AsExprType || attrSchema.Address.AsReference) {
+			targetCtx = &TargetContext{
+				FriendlyName:      attrSchema.Address.FriendlyName,
+				ScopeId:           attrSchema.Address.ScopeId,
+				AsExprType:        attrSchema.Address.AsExprType,
+				AsReference:       attrSchema.Address.AsReference,
+				ParentAddress:     attrAddr,
+				ParentRangePtr:    attr.Range.Ptr(),
+				ParentDefRangePtr: attr.NameRange.Ptr(),
 			}
 		}
 
+		if attrSchema.Address.AsReference {
+			ref := reference.Target{
+				Addr:          attrAddr,
+				ScopeId:       attrSchema.Address.ScopeId,
+				DefRangePtr:   attr.NameRange.Ptr(),
+				RangePtr:      attr.Range.Ptr(),
+				Name:          attrSchema.Address.FriendlyName,
+				NestedTargets: reference.Targets{},
+			}
+			refs = append(refs, ref)
+		}
+	}
+
+	// expressions that cannot carry targets of their own (keywords, type declarations, literal values)
+	// still declare the attribute itself
+	if isTargetsExpr {
 		refs = append(refs, eType.ReferenceTargets(ctx, targetCtx)...)
 	}
 
